@@ -376,6 +376,36 @@ PROPS["C04"] = dict(
     note="Exhaustive structural enumeration (coverage.exhaustive) executed on the real SSA by the symbolic engine.",
 )
 
+PROPS["C16"] = dict(
+    _my,
+    runs={
+        "quick": [
+            dict(_my, harness="VerifHarness_C16_mysql", reach=["planned", "rejected"]),
+            dict(_pg, harness="VerifHarness_C16_postgres", reach=["planned", "rejected"]),
+        ],
+        "thorough": [
+            dict(_my, harness="VerifHarness_C16_mysql", reach=["planned", "rejected"]),
+            dict(_pg, harness="VerifHarness_C16_postgres", reach=["planned", "rejected"]),
+        ],
+    },
+    bounds={
+        "quick": "MySQL and PostgreSQL planners x 11 change sets (create table with index/check/comment/pk; with a foreign key to another table; drop table; "
+                 "add+drop column; add+drop index; add foreign key; modify column type+comment; rename table; add schema; drop schema; tables of two schemas) x "
+                 "qualifier {none requested, empty, custom}; the schema name is a symbolic 2-byte string over x..z and the custom qualifier a symbolic 2-byte "
+                 "string over u..w (letters no other identifier uses)",
+        "thorough": "same (the change-set catalogue is the bound)",
+    },
+    assumptions=[
+        "non-interference formulation: with symbolic name bytes, 'no statement mentions the schema name' is decided by the solver for all names of the marker alphabet at once",
+        "PostgreSQL identifier quoting via fmt %q is executed by the real strconv.Quote on the symbolic text",
+    ],
+    outside="SQLite (always unqualified), enum/domain/sequence objects of enterprise builds, names outside the 2-byte marker alphabet, cmdapi planOptions wiring",
+    claim="For every change set of the catalogue and every schema name / qualifier of the marker alphabets, a plan scoped with the empty qualifier "
+          "contains no planned or reverse statement mentioning the schema name or touching a schema, schema-level and two-schema change sets are rejected, "
+          "and with a custom qualifier every table reference is prefixed by exactly that qualifier.",
+    note="Bounded by the change-set catalogue. Trusted: engine, z3, the occurrence scanner verifQualified.",
+)
+
 NOT_APPLICABLE = {
     "C01": "needs a real SQLite engine executing the planned SQL and pragma-based inspection; neither cgo code nor SQLite's DDL "
            "semantics can be encoded by an SSA-level symbolic executor, and a hand-written catalogue model would verify the model, not Atlas "
